@@ -71,18 +71,36 @@ def fold(expr, fn_node, is_hole, depth=0, env=None):
             else:
                 raise AnalysisError('unsupported f-string piece in pattern: %s' % short(expr))
         return _merge(out)
-    if isinstance(expr, ast.Call) and isinstance(expr.func, ast.Attribute) and expr.func.attr == 'format' \
-            and isinstance(expr.func.value, ast.Constant) and isinstance(expr.func.value.value, str) and not expr.keywords:
-        tmpl = expr.func.value.value
-        pieces = tmpl.split('{}')
-        if len(pieces) != len(expr.args) + 1 or '{' in ''.join(pieces).replace('{{', '') or '}' in ''.join(pieces).replace('}}', ''):
+    if isinstance(expr, ast.Call) and isinstance(expr.func, ast.Attribute) and expr.func.attr == 'format':
+        tmpl_parts = fold(expr.func.value, fn_node, is_hole, depth + 1, env)
+        if len(tmpl_parts) != 1 or not isinstance(tmpl_parts[0], str) or any(isinstance(a, ast.Starred) for a in expr.args) \
+                or any(k.arg is None for k in expr.keywords):
             raise AnalysisError('unsupported str.format in pattern: %s' % short(expr))
+        import string
+        kw = {k.arg: k.value for k in expr.keywords}
         out = []
-        for i, p in enumerate(pieces):
-            if p:
-                out.append(p.replace('{{', '{').replace('}}', '}'))
-            if i < len(expr.args):
-                out.extend(fold(expr.args[i], fn_node, is_hole, depth + 1, env))
+        auto = 0
+        try:
+            fields = list(string.Formatter().parse(tmpl_parts[0]))
+        except ValueError:
+            raise AnalysisError('malformed format template in pattern: %s' % short(expr))
+        for literal, name, spec, conv in fields:
+            if literal:
+                out.append(literal)
+            if name is None:
+                continue
+            if spec or conv:
+                raise AnalysisError('format specification in pattern template: %s' % short(expr))
+            if name == '':
+                idx_, auto = auto, auto + 1
+                arg = expr.args[idx_] if idx_ < len(expr.args) else None
+            elif name.isdigit():
+                arg = expr.args[int(name)] if int(name) < len(expr.args) else None
+            else:
+                arg = kw.get(name)
+            if arg is None:
+                raise AnalysisError('format field {%s} has no argument in %s' % (name, short(expr)))
+            out.extend(fold(arg, fn_node, is_hole, depth + 1, env))
         return _merge(out)
     raise AnalysisError('pattern expression not recognised: %s' % short(expr))
 
